@@ -695,6 +695,17 @@ func TestVerifC17Compile(t *testing.T) {
 				ops = append(ops, fmt.Sprintf("z %s %d %s", which, max, c17Hex(in)))
 				stats.Inc(fmt.Sprintf("z.boundary.domain-set-at-index-%d", idx))
 			}
+			// total length without any domain set: exactly MaxMatchSetLen match sets (fallback included) is
+			// accepted, one more is rejected by the traffic builder (51cbe59) and accepted by the DNS matchers
+			for _, total := range []int{max, max + 1} {
+				fn, v, out := "port", "80", "direct"
+				if which != "r" {
+					fn, v, out = "qtype", "a", "reject"
+				}
+				in := "routing {\n  " + fn + "(" + strings.TrimSuffix(strings.Repeat(v+", ", total-1), ", ") + ") -> " + out + "\n}\n"
+				ops = append(ops, fmt.Sprintf("z %s %d %s", which, max, c17Hex(in)))
+				stats.Inc(fmt.Sprintf("z.boundary.total-%d", total))
+			}
 		}
 	}
 	nzOps := len(ops)
